@@ -6,12 +6,25 @@ Section Spec.
 Variable requote : bytes -> option bytes.   (* the path quoter (external) *)
 Variable root : container.                  (* App::app_data *)
 
+(* What a producer conveys of the request it was given: the h1/h2 transports and the actix-web
+   test builder convey everything; actix_http's test builder has no peer address (None, the
+   default); [Request::new()] conveys nothing but the request-local data: the head is
+   [RequestHead::default()] (GET / HTTP/1.1, no headers, no peer, no flags). *)
+Definition conveyed (q : reqd) : reqd :=
+  match q_prod q with
+  | PH1 | PTest => q
+  | PHttpTest => mkReq PHttpTest (q_method q) (q_uri q) (q_version q) (q_headers q) None
+                       (q_flags q) (q_exts q) (q_conn q)
+  | PRaw => mkReq PRaw [71; 69; 84] [47] 11 [] None 0 (q_exts q) (q_conn q)
+  end.
+
 (* The view a handler has of request [q] when it enters the router, written down directly:
-   every field comes from [q] or from the configuration. *)
+   every field comes from (what the producer conveys of) [q] or from the configuration. *)
 Definition spec_view (q : reqd) : view :=
-  mkView (q_method q) (q_uri q) (q_version q) (q_headers q) (q_peer q) (q_flags q)
-         (q_uri q) (requote (q_uri q)) 0 [] [] false
-         [root] (q_conn q) (q_exts q).
+  let c := conveyed q in
+  mkView (q_method c) (q_uri c) (q_version c) (q_headers c) (q_peer c) (q_flags c)
+         (q_uri c) (requote (q_uri c)) 0 [] [] false
+         [root] (q_conn c) (q_exts c).
 
 (* the state of a recycled request object while it waits in the pool *)
 Definition pooled_clean (o : obj) : Prop :=
@@ -19,10 +32,6 @@ Definition pooled_clean (o : obj) : Prop :=
 
 (* a request object in use: its application-data stack still starts with the root container *)
 Definition rooted (o : obj) : Prop := exists tl, o_app_data o = root :: tl.
-
-(* the decidable class of cases touched by the known finding: the request's head was filled by
-   a producer that does not write every field [RequestHead::clear] leaves alone *)
-Definition known_partial_producer (q : reqd) : Prop := full_producer (q_prod q) = false.
 End Spec.
 
 (* things done to a request between the router entry and the handler's look at it *)
